@@ -12,12 +12,14 @@ type Explorer struct {
 
 // Stats summarises an exploration.
 type Stats struct {
-	Executions  int64
-	PerBound    map[int]int64 // executions by number of preemptions
-	Transitions int64         // scheduling points executed
-	MaxPoints   int
-	Exhaustive  bool // the whole tree within the bound was enumerated
-	Capped      bool
+	Executions   int64
+	PerBound     map[int]int64 // executions by number of preemptions
+	Transitions  int64         // scheduling points executed
+	MaxPoints    int
+	Exhaustive   bool // the whole tree within the bound was enumerated
+	Capped       bool
+	RacySelects  int64 // executions that passed a select with more than one ready case
+	RacyDiverged int64 // replays that took another branch at such a select (explored as executions of their own)
 }
 
 type frame struct {
@@ -50,13 +52,21 @@ func (e *Explorer) Explore() *Stats {
 		if r.Diverged {
 			continue
 		}
+		if r.Racy > 0 {
+			st.RacySelects++
+		}
+		honoured := len(f.prefix)
+		if r.RacyAt >= 0 {
+			st.RacyDiverged++
+			honoured = r.RacyAt
+		}
 		// children: alternatives at every point after the prefix
 		cost := 0
 		choices := make([]int, 0, len(r.Points))
 		ns := make([]int, 0, len(r.Points))
 		var kids []frame
 		for i, p := range r.Points {
-			if i >= len(f.prefix) {
+			if i >= honoured {
 				for alt := 1; alt < len(p.Enabled); alt++ {
 					c := cost
 					if p.CurEnabled {
